@@ -107,3 +107,30 @@ package schemas
 //@   trusted file system: the resolved path is an unknown string determined by the arguments, or there is an error
 //@   shape results = (pure; nil) | (""; error)
 //@   assigns nothing
+
+// ---- JSON or YAML is decided by the file that is READ (C13) -----------------------
+// A reference may omit the extension (--resolve-extension); the resolved name, not
+// the spelling of the reference, says whether the file is YAML. Scenario: the
+// reference "address" next to "dir/order.yaml" resolves to a .yaml file, a .json
+// file, or not at all; the readers are assumed call-site contracts.
+//@ func FromYAMLFile@callsite
+//@   trusted file system and YAML decoding: a schema or an error
+//@   shape results = (new; nil) | (nil; error)
+//@   assigns nothing
+//@ func FromJSONFile@callsite
+//@   trusted file system and JSON decoding: a schema or an error
+//@   shape results = (new; nil) | (nil; error)
+//@   assigns nothing
+//@ func (*FileLoader).Load
+//@   props C13 C10 C18
+//@   option verify-only
+//@   option noframe
+//@   option results-of QualifiedFileName = ("dir/address.yaml"; nil) | ("dir/address.json"; nil) | (""; error)
+//@   shape l = new
+//@   shape l.yamlExtensions = litmap(.yaml:true)
+//@   shape fileName = "address"
+//@   shape parentFileName = "dir/order.yaml"
+//@   ensures [C13,C10] a-yaml-file-is-read-as-yaml: call_result("QualifiedFileName", 0) == "dir/address.yaml" ==> called_with("FromYAMLFile", 0, "dir/address.yaml") && call_count("FromJSONFile") == 0
+//@   ensures [C13,C10] any-other-file-is-read-as-json: call_result("QualifiedFileName", 0) == "dir/address.json" ==> called_with("FromJSONFile", 0, "dir/address.json") && call_count("FromYAMLFile") == 0
+//@   ensures [C18,C10] a-reference-that-does-not-resolve-fails: call_failed("QualifiedFileName") ==> result1 != nil
+//@   ensures [C18] read-errors-propagate: (call_failed("FromYAMLFile") || call_failed("FromJSONFile")) ==> result1 != nil
